@@ -15,6 +15,7 @@ from collections import Counter
 from mc.core import findings as F
 from mc.core.evidence import Report
 from mc.core.pipeline import Case, execute
+from mc.cxx.build import parse_value
 from mc.checks.c01 import classify_event
 from mc.edm.events import Event, Obj
 from mc.lang import qgen
@@ -125,6 +126,28 @@ def post(outs, events):
         # header: the rendered include area must name the header the function is declared in
         src = o.pkg.files.get(o.pkg.source_name, "") if o.pkg.files else ""
         first = None
+        if c.info["context"] == "edge":
+            # an argument on the edge of the function's domain: the job must go on and write what the function of that name
+            # returns there (-inf, inf, nan), not die or write something else
+            import math as _m
+            want = c.info["edge_value"]
+            for j in o.jobs:
+                for er in j.events[:1]:
+                    stats["executions"] += 1
+                    vals = []
+                    try:
+                        vals = [float(parse_value(cell)) for r_ in er.rows for cell in r_[1]]
+                    except Exception:
+                        pass
+                    same = er.end == "ok" and len(vals) > 0 and all((_m.isnan(v) and _m.isnan(want)) or v == want for v in vals)
+                    if same:
+                        stats["agree"] += 1
+                    elif first is None:
+                        first = {"symptom": "edge-of-domain", "observed_end": er.end, "observed": vals[:3], "expected": repr(want), "what": er.what[:120]}
+            if first is not None:
+                first.update(info)
+                recs.append(first)
+            continue
         for j in o.jobs:
             if not j.events:
                 continue
@@ -226,6 +249,17 @@ def main(tier="quick"):
                 q = f"ds.SelectMany(lambda e: e.{coll}('A')).Select(lambda j: {tmpl.format(f=call_text(n))})"
                 cases.append(Case(pid, backend, q, md, {"function": n, "context": ctx, "prior": [(prior_q, list(md) + [own])]}))
                 pid += 1
+    # ---- arguments on the edge of a function's domain (the C library returns -inf / inf / nan there and goes on)
+    for backend in ("atlas", "cms_aod", "cms_miniaod"):
+        md = tuple(qgen.method_metadata(qgen.ALPHA[backend]))
+        coll = qgen.ALPHA[backend].primary
+        z = "(j.pt() * 0)"
+        for fn_text, want in ((f"log({z})", float("-inf")), (f"sqrt({z} - 4)", float("nan")), (f"exp({z} + 1000)", float("inf")), (f"atanh({z} + 1)", float("inf")),
+                              (f"pow({z}, -1)", float("inf")), (f"log({z} - 4)", float("nan")), (f"acos({z} - 4)", float("nan")), (f"fmod(j.pt(), {z})", float("nan")),
+                              (f"log10({z})", float("-inf")), (f"sqrt(j.pt()) + log({z})", float("-inf"))):
+            q = f"ds.SelectMany(lambda e: e.{coll}('A')).Select(lambda j: {fn_text})"
+            cases.append(Case(pid, backend, q, md, {"function": fn_text.split("(")[0], "context": "edge", "edge_value": want}))
+            pid += 1
     # ---- the query declares a C++ METHOD named like a documented function (and may call it): the plain call is still the documented function
     for backend in backends:
         md = tuple(qgen.method_metadata(qgen.ALPHA[backend]))
